@@ -4,24 +4,33 @@ C13  The linear solver returns the true solution together with its derivatives.
 `dsolve21` is the model of `dsolve21_` (forward elimination with partial pivoting, explicit zeroing,
 back substitution).  The soundness theorem is proved over ANY commutative ring with a division
 operation: all it needs is that every pivot `p` actually divided by satisfies `x / p * p = x`.
-  * In a field that is `p ≠ 0` (`C13_sound_field`).
-  * In the ring of dual numbers `ℝ[ε]/(ε²)` (value, derivative), `Mathlib`'s `TrivSqZeroExt ℝ ℝ`, it is
-    "the VALUE of the pivot is non-zero" (`C13_sound_dual_numbers`): the equation `A x = b` then holds
-    in value AND in first derivative.
+  * In a field that is `p ≠ 0` (`C13_sound_field`); the solution is then also the ONLY one
+    (`C13_complete`).
   * Over an ordered field (ℝ) with the code's magnitude comparison, a system with EXACTLY ONE solution
     never meets a zero pivot, so the solver returns that solution (`C13_nonsingular`): if the current
     column were zero from the diagonal down, the partially eliminated matrix would have a kernel vector.
-  * LIST-LEVEL dual numbers, float matrix and dual right-hand side (`C13_dual_rhs`, the code path of
-    `fdsolve`): the solution is well-formed, its values solve the system for the data's values and its
-    sensitivity to every variable NAME solves the system for the data's sensitivities to that name —
-    whatever the layouts of the data (the solver is linear in the right-hand side; Proofs/FLinear.lean).
-PARTIAL (DESIGN.md "C13 partial"): for a dual-number MATRIX the refinement from the list-based arithmetic
-to the ring of dual numbers, and second order, are covered by the correspondence run (residual and
-row-permutation streams, all A/b kind pairings).
+  * In the ring of dual numbers `ℝ[ε]/(ε²)` (value, derivative), `Mathlib`'s `TrivSqZeroExt ℝ ℝ`, `Good` is
+    "the VALUE of the pivot is non-zero" (`C13_sound_dual_numbers`).
+  * LIST-LEVEL numbers, DUAL-NUMBER MATRIX (`C13_dual_matrix_refines`, `C13_dual_matrix`;
+    Proofs/LinHom.lean): the generic solver commutes with every homomorphism of its arithmetic, pivot
+    choices included; the (value, sensitivity-to-`v`) projection of list-level first-order numbers is one
+    (any layouts, any variable tagging), so the list-level answer projects onto the ring-level answer, and
+    `A x = b` holds in value and in the first derivative w.r.t. every variable name carried by `A` or `b`,
+    as soon as the VALUE system is regular.
+  * SECOND ORDER (`C13_dual2_matrix_refines`, `C13_dual2_matrix`; Proofs/Jet2Ring.lean): the same with the
+    directional 2-jets `ℝ[ε]/(ε³)` along every direction `α·e_v + β·e_w`: `A x = b` holds as an identity of
+    2-jets, i.e. in value, all first and all second derivatives.
+  * FLOAT MATRIX, dual right-hand side (`C13_dual_rhs`, `C13_dual2_rhs`, the code path of `fdsolve`): values
+    and sensitivities of the answer are the answers for the values and sensitivities of the data (the
+    solver is linear in the right-hand side; Proofs/FLinear.lean).
+  * LEAST SQUARES (`C13_lsq`, `C13_lsq_refines`): normal equations, and the same refinement.
 -/
 import RateslibModel.Proofs.Gauss4
 import RateslibModel.Analysis.RealInst
 import RateslibModel.Proofs.FLinearInst
+import RateslibModel.Proofs.SplineDeriv
+import RateslibModel.Proofs.SplineRepro
+import RateslibModel.Proofs.Jet2Ring
 import Mathlib.Algebra.TrivSqZeroExt.Basic
 import Mathlib.Data.Real.Basic
 namespace Rateslib
@@ -124,16 +133,9 @@ theorem C13_absGe_real (x y : ℝ) : @LinOps.absGe ℝ linOpsScalar x y = absGeK
 
 /-! ### dual numbers: the solution carries the true first derivative -/
 
-open TrivSqZeroExt in
-/-- division of dual numbers as the code performs it: multiplication by the reciprocal -/
-noncomputable instance : Div (TrivSqZeroExt ℝ ℝ) := ⟨fun x y => x * y⁻¹⟩
-
-open TrivSqZeroExt in
-/-- a dual number whose VALUE is non-zero can be divided by -/
-theorem C13_good_dual_number (p : TrivSqZeroExt ℝ ℝ) (hp : p.fst ≠ 0) : Good p := by
-  intro x
-  show x * p⁻¹ * p = x
-  rw [mul_assoc, TrivSqZeroExt.inv_mul_cancel hp, mul_one]
+/-- a dual number whose VALUE is non-zero can be divided by (division as the code performs it:
+multiplication by the reciprocal, `tszDiv` of Proofs/LinHom.lean) -/
+theorem C13_good_dual_number (p : TrivSqZeroExt ℝ ℝ) (hp : p.fst ≠ 0) : Good p := good_tsz p hp
 
 /-- `A x = b` holds in the ring of dual numbers — i.e. in value and in first derivative along any
 direction — whenever the pivots' values are non-zero. -/
@@ -153,6 +155,90 @@ theorem C13_dual_rhs (n : Nat) (a : Nat → Nat → ℝ) (b : Nat → Dual ℝ) 
     (fdsolve21 (α := ℝ) n ⟨a, b⟩ r).real = fdsolve21 (α := ℝ) (σ := ℝ) n ⟨a, fun i => (b i).real⟩ r ∧
     den (fdsolve21 (α := ℝ) n ⟨a, b⟩ r) v = fdsolve21 (α := ℝ) (σ := ℝ) n ⟨a, fun i => den (b i) v⟩ r :=
   fdsolve21_dual_rhs n a b hb v r
+
+
+/-! ### dual-number matrices, list level -/
+section DualMatrix
+open Rateslib.Dual Expr
+
+/-- the comparison of the theorems below is the one the model's own float instance uses, and it is the
+magnitude comparison of `C13_nonsingular` -/
+theorem C13_geR (x y : ℝ) : @LinOps.absGe ℝ linOpsScalar x y = geR x y ∧ geR x y = absGeK x y :=
+  ⟨rfl, C13_absGe_real x y⟩
+
+/-- COMPLETENESS (any field): if the elimination meets no zero pivot, EVERY solution of the system is the
+returned one. -/
+theorem C13_complete {K : Type} [Field K] (ge : K → K → Bool) (n : Nat) (s : Sys K)
+    (hp : PivotsGood ge n (List.range n) s) (x : Nat → K) (hx : Sol n s x) :
+    ∀ c, c < n → x c = @dsolve21 K (ringLinOps ge) n s c :=
+  dsolve21_unique ge n s hp x hx
+
+/-- DUAL-NUMBER MATRIX AND RIGHT-HAND SIDE, list level, any layouts: for every variable name `v`, the
+(value, sensitivity-to-`v`) pairs of the list-level solver's answer ARE the answer of the same elimination
+(same pivot choices) run in the ring of dual numbers on the (value, sensitivity) pairs of the data. -/
+theorem C13_dual_matrix_refines (v : String) (n : Nat) (s : Sys (Dual ℝ))
+    (ha : ∀ r c, (s.a r c).WF) (hb : ∀ r, (s.b r).WF) (r : Nat) :
+    (@dsolve21 (Dual ℝ) linOpsDual n s r).WF ∧
+    jetT v (@dsolve21 (Dual ℝ) linOpsDual n s r)
+      = @dsolve21 (TrivSqZeroExt ℝ ℝ) linOpsT n
+          ⟨fun r c => jetT v (s.a r c), fun r => jetT v (s.b r)⟩ r :=
+  dsolve21_dual_refines v n s ha hb r
+
+/-- … hence, if the elimination on the VALUES meets no zero pivot (a uniquely solvable value system,
+`C13_nonsingular`), `A x = b` holds in value AND in the first derivative with respect to every variable
+name carried by `A` or `b`. -/
+theorem C13_dual_matrix (v : String) (n : Nat) (s : Sys (Dual ℝ))
+    (ha : ∀ r c, (s.a r c).WF) (hb : ∀ r, (s.b r).WF)
+    (hp : PivotsGood geR n (List.range n) ⟨fun r c => (s.a r c).real, fun r => (s.b r).real⟩) :
+    ∀ r, r < n →
+      (∑ c ∈ range n, (s.a r c).real * (@dsolve21 (Dual ℝ) linOpsDual n s c).real = (s.b r).real) ∧
+      (∑ c ∈ range n, ((s.a r c).real * den (@dsolve21 (Dual ℝ) linOpsDual n s c) v
+          + den (s.a r c) v * (@dsolve21 (Dual ℝ) linOpsDual n s c).real) = den (s.b r) v) :=
+  dual_matrix_solution v n s ha hb hp
+
+/-- SECOND ORDER: along every direction `α·e_v + β·e_w` the 2-jets of the list-level answer are the answer
+of the same elimination in the ring of 2-jets `ℝ[ε]/(ε³)`. -/
+theorem C13_dual2_matrix_refines (α β : ℝ) (v w : String) (n : Nat) (s : Sys (Dual2 ℝ))
+    (ha : ∀ r c, (s.a r c).WF) (hb : ∀ r, (s.b r).WF) (r : Nat) :
+    (@dsolve21 (Dual2 ℝ) linOpsDual2 n s r).WF ∧
+    dirJet α β v w (@dsolve21 (Dual2 ℝ) linOpsDual2 n s r)
+      = @dsolve21 J2 linOpsJ n
+          ⟨fun r c => dirJet α β v w (s.a r c), fun r => dirJet α β v w (s.b r)⟩ r :=
+  dsolve21_dual2_refines α β v w n s ha hb r
+
+/-- … hence, for a regular value system, `A x = b` as an identity of 2-jets along EVERY direction: in
+value, in every first and in every second derivative carried by `A` or `b`. -/
+theorem C13_dual2_matrix (α β : ℝ) (v w : String) (n : Nat) (s : Sys (Dual2 ℝ))
+    (ha : ∀ r c, (s.a r c).WF) (hb : ∀ r, (s.b r).WF)
+    (hp : PivotsGood geR n (List.range n) ⟨fun r c => (s.a r c).real, fun r => (s.b r).real⟩) :
+    ∀ r, r < n →
+      ∑ c ∈ range n, dirJet α β v w (s.a r c) * dirJet α β v w (@dsolve21 (Dual2 ℝ) linOpsDual2 n s c)
+        = dirJet α β v w (s.b r) :=
+  dual2_matrix_solution α β v w n s ha hb hp
+
+/-- LEAST SQUARES: the normal-equations branch refines in the same way (first order shown). -/
+theorem C13_lsq_refines (v : String) (rows n : Nat) (s : Sys (Dual ℝ))
+    (ha : ∀ r c, (s.a r c).WF) (hb : ∀ r, (s.b r).WF) (lsq : Bool) (r : Nat) :
+    (@dsolve (Dual ℝ) linOpsDual rows n s lsq r).WF ∧
+    jetT v (@dsolve (Dual ℝ) linOpsDual rows n s lsq r)
+      = @dsolve (TrivSqZeroExt ℝ ℝ) linOpsT rows n
+          ⟨fun r c => jetT v (s.a r c), fun r => jetT v (s.b r)⟩ lsq r :=
+  @dsolve_hom _ _ linOpsDual linOpsT _ _ (jetT_linHom v) rows n s _
+    ⟨fun r c => ⟨ha r c, rfl⟩, fun r => ⟨hb r, rfl⟩⟩ lsq r
+
+/-- FLOAT MATRIX, SECOND-order right-hand side: values, first-order and (half) second-order sensitivities
+of the answer are the answers for the corresponding projections of the data. -/
+theorem C13_dual2_rhs (n : Nat) (a : Nat → Nat → ℝ) (b : Nat → Dual2 ℝ) (hb : ∀ i, (b i).WF)
+    (v w : String) (r : Nat) :
+    (fdsolve21 (α := ℝ) n ⟨a, b⟩ r).WF ∧
+    (fdsolve21 (α := ℝ) n ⟨a, b⟩ r).real = fdsolve21 (α := ℝ) (σ := ℝ) n ⟨a, fun i => (b i).real⟩ r ∧
+    Dual2.den (fdsolve21 (α := ℝ) n ⟨a, b⟩ r) v
+      = fdsolve21 (α := ℝ) (σ := ℝ) n ⟨a, fun i => Dual2.den (b i) v⟩ r ∧
+    Dual2.den2 (fdsolve21 (α := ℝ) n ⟨a, b⟩ r) v w
+      = fdsolve21 (α := ℝ) (σ := ℝ) n ⟨a, fun i => Dual2.den2 (b i) v w⟩ r :=
+  fdsolve21_dual2_rhs n a b hb v w r
+
+end DualMatrix
 
 /-! Non-vacuity: a 2×2 rational system whose first pivot needs a row swap (0x + 2y = 2, 4x + y = 9). -/
 def exSys : Sys ℚ :=
